@@ -1,5 +1,148 @@
-(* C39 — placeholder while the pipeline is brought up *)
-From FH Require Import Model.Base Gen.GenC39 Model.Prefork Spec.PreforkSpec.
+(* C39 — Prefork keeps its children supervised and never orphans them.
+   Statements only; proofs live in Proof/PreforkProof.v.  The model (Model/Prefork.v) is a labelled
+   transition system of the master: reach c s = s is reachable by ANY sequence of labels (spawn results,
+   hook outcomes incl. panics, child deaths, reaps, backoff timers, grace expiry) under the named OS
+   assumption fresh_ok: a new child's pid is not a key of childProcs (no pid reuse between reaping a
+   child and processing its exit).  kids s = every child ever started (C39_every_started_child_recorded). *)
+From FH Require Import Model.Base Gen.GenC39 Model.Prefork Spec.PreforkSpec Proof.PreforkProof.
 Open Scope Z_scope.
-Example C39_ex_init : ph (init (Build_cfg 2 1 true false false false)) = PInitSpawn 0.
-Proof. reflexivity. Qed.
+
+(* ---- teardown ---- *)
+
+(* On EVERY return path (any error class, any history): every started child is reaped, its Wait
+   goroutine has finished, it was sent SIGTERM unless it was already reaped when the SIGTERM loop ran,
+   and it was sent SIGKILL iff it was not yet reaped when the grace timer fired. *)
+Theorem C39_teardown_complete : forall c s e, reach c s -> ph s = PReturned e ->
+  Forall (fun k => os k = Reaped /\ gor k = GDone /\ (sig k = true \/ early k = true) /\ kil k = atgrace k) (kids s).
+Proof. exact teardown_complete. Qed.
+Print Assumptions C39_teardown_complete.
+
+Theorem C39_every_started_child_recorded : forall c tr s, run c (init c) tr = Some s ->
+  length (kids s) = count_started tr.
+Proof. intros c tr s H. apply run_started in H. exact H. Qed.
+Print Assumptions C39_every_started_child_recorded.
+
+(* from the moment the teardown starts every child still unreaped has been sent SIGTERM *)
+Theorem C39_signalled_during_teardown : forall c s, reach c s -> tearing (ph s) = true ->
+  Forall (fun k => (sig k = true \/ early k = true) /\ (os k <> Reaped -> sig k = true)) (kids s).
+Proof. exact teardown_signalled. Qed.
+Print Assumptions C39_signalled_during_teardown.
+
+(* the kill loop: nobody was killed before, and it hits exactly the children not reaped at grace expiry *)
+Theorem C39_kill_at_grace_expiry : forall c s s', reach c s -> step c s EGrace = Some s' ->
+  Forall (fun k => kil k = false) (kids s) /\
+  Forall (fun k => kil k = negb (o_reapedb (os k))) (kids s').
+Proof. exact grace_kills_survivors. Qed.
+Print Assumptions C39_kill_at_grace_expiry.
+
+Theorem C39_no_kill_before_grace : forall c s, reach c s ->
+  match ph s with PKilled _ | PReturned _ => True | _ => Forall (fun k => kil k = false) (kids s) end.
+Proof. exact no_kill_before_grace. Qed.
+Print Assumptions C39_no_kill_before_grace.
+
+(* progress: after the grace timer no live child has been spared (so, SIGKILL being final, all get reaped),
+   and once all are reaped prefork does return, with the error that started the teardown *)
+Theorem C39_survivors_all_killed : forall c s e, reach c s -> ph s = PKilled e ->
+  Forall (fun k => os k <> Reaped -> kil k = true /\ sig k = true) (kids s).
+Proof. exact survivors_all_killed. Qed.
+Print Assumptions C39_survivors_all_killed.
+
+Theorem C39_returns_when_all_reaped : forall c s e, reach c s -> ph s = PGrace e \/ ph s = PKilled e ->
+  Forall (fun k => os k = Reaped) (kids s) -> exists s', step c s EDrain = Some s' /\ ph s' = PReturned e.
+Proof. exact drain_enabled. Qed.
+Print Assumptions C39_returns_when_all_reaped.
+
+(* ---- supervision ---- *)
+
+(* whenever the loop waits for the next exit, childProcs holds exactly GOMAXPROCS children,
+   started - processed = GOMAXPROCS, and the threshold is not exceeded *)
+Theorem C39_supervision : forall c s, reach c s -> ph s = PIdle ->
+  length (procs s) = G c /\ Z.of_nat (length (kids s)) - exited s = Z.of_nat (G c) /\
+  (exited s = 0 \/ exited s <= T c).
+Proof. exact supervision_state. Qed.
+Print Assumptions C39_supervision.
+
+(* every child whose exit has not been processed is an entry of childProcs (so teardown reaches it) *)
+Theorem C39_supervised_children_in_map : forall c s, reach c s ->
+  Forall (fun k => processed k = false -> In (cpid k, cid k) (procs s)) (kids s).
+Proof. exact supervised_in_map. Qed.
+Print Assumptions C39_supervised_children_in_map.
+
+(* every label sequence the master can produce satisfies the supervision Spec used as oracle:
+   G children under supervision at each processed exit; an exit at or below the threshold is
+   immediately followed by a restart attempt *)
+Theorem C39_supervision_trace : forall c tr s, fresh_run c (init c) tr -> run c (init c) tr = Some s ->
+  supervised c tr = true.
+Proof. exact accepted_supervised. Qed.
+Print Assumptions C39_supervision_trace.
+
+(* ---- over-recovery ---- *)
+
+Theorem C39_over_recovery : forall c s e, reach c s -> ph s = PReturned e ->
+  (e = ErrOverRecovery -> exited s > T c /\ 1 <= exited s) /\
+  (e <> ErrOverRecovery -> exited s = 0 \/ exited s <= T c).
+Proof. exact over_recovery_state. Qed.
+Print Assumptions C39_over_recovery.
+
+(* for a non-negative RecoverThreshold: ErrOverRecovery exactly when more than RecoverThreshold exits were processed *)
+Theorem C39_over_recovery_trace : forall c tr s e, 0 <= T c -> fresh_run c (init c) tr ->
+  run c (init c) tr = Some s -> ph s = PReturned e -> over_recovery_ok c tr e = true.
+Proof. exact accepted_over_recovery. Qed.
+Print Assumptions C39_over_recovery_trace.
+
+(* ---- what the OS assumption protects ---- *)
+(* With pid reuse between reap and processing (child 0 reaped, pid 100 reused by child 2, then child 0's
+   exit processed: delete(childProcs, 100) drops child 2's entry) a running child is neither signalled
+   nor killed, and prefork cannot return while it lives. *)
+Definition reuse_cfg : cfg := Build_cfg 2 5 true false false false.
+Definition reuse_trace : list event :=
+  [ESpawn (PStarted 100); ESpawn (PStarted 200);
+   EDie 0 DSelf; EReap 0;                       (* child 0 (pid 100) reaped, in backoff *)
+   EDie 1 DSelf; EReap 1; ETimer 1; ERecv 200;  (* child 1 processed ... *)
+   ESpawn (PStarted 100);                       (* ... and replaced by a child that got pid 100 again *)
+   ETimer 0; ERecv 100;                         (* child 0's exit processed: delete(childProcs, 100) *)
+   ESpawn PError; EGrace].
+
+Theorem C39_pid_reuse_breaks_teardown : exists s,
+  run reuse_cfg (init reuse_cfg) reuse_trace = Some s /\ reach_any reuse_cfg s /\
+  run_fresh reuse_cfg (init reuse_cfg) reuse_trace = false /\
+  ph s = PKilled ErrProducer /\
+  Exists (fun k => os k = Running /\ sig k = false /\ kil k = false) (kids s) /\
+  step reuse_cfg s EDrain = None.
+Proof.
+  eexists. split; [vm_compute; reflexivity|]. split.
+  - eapply (run_reach_any reuse_cfg reuse_trace); [constructor|vm_compute; reflexivity].
+  - split; [vm_compute; reflexivity|]. split; [reflexivity|]. split; [|reflexivity].
+    apply Exists_cons_tl, Exists_cons_tl, Exists_cons_hd. repeat split.
+Qed.
+Print Assumptions C39_pid_reuse_breaks_teardown.
+
+(* ---- non-vacuity ---- *)
+Definition ex_cfg : cfg := Build_cfg 2 1 true true true true.
+(* two children, one exits twice (replaced once), threshold 1 exceeded; the other ignores SIGTERM and is killed *)
+Definition ex_trace : list event :=
+  [ESpawn (PStarted 10); EHook HOk; ESpawn (PStarted 11); EHook HOk; EReady HOk;
+   EDie 1 DSelf; EReap 1; ETimer 1; ERecv 11; ESpawn (PStarted 12); EHook HOk; ERecoverCb 11 12;
+   EDie 2 DSelf; EReap 2; ETimer 2; ERecv 12;
+   EGrace; EDie 0 DKill; EReap 0; EDrain].
+
+Example C39_ex_over_recovery_with_kill :
+  run_fresh ex_cfg (init ex_cfg) ex_trace = true /\
+  option_map ph (run ex_cfg (init ex_cfg) ex_trace) = Some (PReturned ErrOverRecovery) /\
+  option_map (fun s => map (fun k => (cpid k, sig k, kil k)) (kids s)) (run ex_cfg (init ex_cfg) ex_trace)
+    = Some [(10, true, true); (11, false, false); (12, false, false)] /\
+  supervised ex_cfg ex_trace = true /\ over_recovery_ok ex_cfg ex_trace ErrOverRecovery = true.
+Proof. vm_compute. repeat split; reflexivity. Qed.
+
+(* a hook error during the initial loop: the children started so far are terminated; no exit was processed *)
+Example C39_ex_hook_error_initial :
+  let tr := [ESpawn (PStarted 10); EHook HOk; ESpawn (PStarted 11); EHook HErr; EDie 0 DTerm; EReap 0; EDie 1 DTerm; EReap 1; EDrain] in
+  option_map ph (run ex_cfg (init ex_cfg) tr) = Some (PReturned ErrHookSpawn) /\
+  (* returning while a child is still running is impossible *)
+  run ex_cfg (init ex_cfg) [ESpawn (PStarted 10); EHook HOk; ESpawn (PStarted 11); EHook HErr; EDie 0 DTerm; EReap 0; EDrain] = None /\
+  (* SIGKILL before the grace timer is impossible *)
+  run ex_cfg (init ex_cfg) [ESpawn (PStarted 10); EHook HErr; EDie 0 DKill] = None /\
+  (* another exit is not taken while a replacement is owed; no restart above the threshold *)
+  supervised ex_cfg [ESpawn (PStarted 10); ESpawn (PStarted 11); ERecv 10; ERecv 11] = false /\
+  over_recovery_ok ex_cfg [ERecv 10] ErrOverRecovery = false.
+Proof. vm_compute. repeat split; reflexivity. Qed.
